@@ -95,6 +95,9 @@ def _run_case(ctx, spec, si, attr, vi, absent, _shrinking, cache):
     val = sought(vi) if absent is None else ABSENT[absent]
     found = []
     case = {"spec": spec, "start": si, "attr": attr, "vi": vi, "absent": absent, "cache": bool(cache)}
+    # the searches run first, on a graph nothing has been read from yet; the traversals that define the
+    # expected answer run afterwards
+    first = {name: oracles.outcome(sf, uni, start, attr, val) for name, (sf, tf) in SEARCH.items()}
     for name, (sf, tf) in SEARCH.items():
         order = tf(uni, start)
         exp = None
@@ -103,7 +106,7 @@ def _run_case(ctx, spec, si, attr, vi, absent, _shrinking, cache):
             if _matches(v, attr, val):
                 exp, pos = v, k
                 break
-        got = oracles.outcome(sf, uni, start, attr, val)
+        got = first[name]
         ctx.evaluated()
         nmatch = sum(1 for v in order if _matches(v, attr, val))
         if exp is not None:
